@@ -9,9 +9,11 @@ CONSTANTS
   Styles <- StylesAll
   KeyVals <- KeyValsAll
   Cfgs <- CfgsAll
+  NKeys <- NKeysAll
+  Knowns <- KnownsAll
   DestOwns <- DestOwnsAll
   TamperKinds <- AllTamperKinds
   MaxTamper = 2
   Budget = 2
-INVARIANTS TypeOK NonInterference Complete RefuseForeign RefuseNoHeader RefuseBadOrigin RefuseBadBody RefuseBadKey RefuseChanged Emit_
+INVARIANTS TypeOK NonInterference Complete RefuseForeign RefuseNoHeader RefuseBadOrigin RefuseBadBody RefuseBadKey RefuseChanged RefuseBadSig Emit_
 CHECK_DEADLOCK FALSE
